@@ -21,8 +21,8 @@ import (
 // finished unit, a running unit, a unit directory that exists only on disk, and a released unit.
 type C08Line struct {
 	Raw     []byte `json:"raw"`
-	Rep     int    `json:"rep,omitempty"`    // Raw repeated (over-long lines)
-	Expect  string `json:"expect"`           // error: must be answered by a line starting with ERROR | any: some answer | none: no answer expected (empty line) | submit | stream | drop: disconnect right after sending (no newline)
+	Rep     int    `json:"rep,omitempty"` // Raw repeated (over-long lines)
+	Expect  string `json:"expect"`        // error: must be answered by a line starting with ERROR | any: some answer | none: no answer expected (empty line) | submit | stream | drop: disconnect right after sending (no newline)
 	Class   string `json:"class"`
 	Payload []byte `json:"payload,omitempty"` // submit: stdin data
 }
